@@ -101,17 +101,15 @@ func (mp MerklePath) Pretty() string {
 	return path
 }
 
-// GetKey will return a byte representation of the key
-// after URL escaping the key element
+// GetKey will return a byte representation of the key element
 func (mp MerklePath) GetKey(i uint64) ([]byte, error) {
 	if i >= uint64(len(mp.KeyPath)) {
 		return nil, fmt.Errorf("index out of range. %d (index) >= %d (len)", i, len(mp.KeyPath))
 	}
-	key, err := url.PathUnescape(mp.KeyPath[i])
-	if err != nil {
-		return nil, err
-	}
-	return []byte(key), nil
+	// KeyPath holds the raw keys: they are escaped for display only (String), never on
+	// construction, so they must not be unescaped here - otherwise "%74ibc" and "tibc"
+	// (or two spellings of one chain name inside a packet key) name the same store key
+	return []byte(mp.KeyPath[i]), nil
 }
 
 // Empty returns true if the path is empty
